@@ -471,7 +471,7 @@ pub struct Scratch {
 impl Scratch {
     /// a private directory for this process below $ABYV_SCRATCH (or /dev/shm)
     pub fn new(tag: &str) -> Scratch {
-        let base = std::env::var("ABYV_SCRATCH").unwrap_or_else(|_| "/dev/shm".to_string());
+        let base = std::env::var("ABYV_SCRATCH").unwrap_or_else(|_| if Path::new("/dev/shm").is_dir() { "/dev/shm".to_string() } else { std::env::temp_dir().display().to_string() });
         let root = PathBuf::from(base).join(format!("abyv.{}.{}", std::process::id(), tag));
         let _ = std::fs::remove_dir_all(&root);
         std::fs::create_dir_all(&root).expect("cannot create scratch directory");
